@@ -3,7 +3,7 @@
 // the observers of `related_entities.rs` (petgraph, Bevy observers, `Query`: outside both verifiers). A real server `App`
 // with `sync_related_entities::<ChildOf>()` and a real client `App`; four replicated entities, each with two
 // components (`BlobA` of a configurable size, `BlobB`), wired in one of five relationship shapes, optionally edited before
-// the measurement (relation removed / entity re-parented). For every (shape, edit, size vector) one pair of apps is built
+// the measurement (relation removed / entity re-parented / two existing hierarchies joined). For every (shape, edit, size vector) one pair of apps is built
 // and then, for every maximum message size, every non-empty subset of entities and both mutation modes (A only | A and B),
 // the subset is mutated, ONE server tick is run and the messages on the mutations channel are inspected (recognisable
 // payloads carrying entity, component and version), then delivered and acknowledged before the next round:
@@ -11,7 +11,9 @@
 //   E  all mutated components of one entity are in the same message;
 //   G  mutated entities connected (transitively) through the synchronized relationship are in the same message;
 //   S  if header + every group's mutations <= max_size, no message exceeds max_size;
-//   O  if header + all mutations <= max_size, exactly one message is sent.
+//   O  if header + all mutations <= max_size, exactly one message is sent;
+//   A  (C11, where a tick needs several messages) only the FIRST message is delivered and acknowledged: in the next tick
+//      exactly the entities of the other messages are re-sent - an acknowledgement covers the entities of its own message only.
 // The harness' own size arithmetic (header = update tick + server tick + 2-byte index; entity = its wire encoding +
 // length prefix + components) is cross-checked against the bytes actually sent in every round; a disagreement is
 // reported as VERIF-HARNESS-MISMATCH (undecided), never as a violation.
@@ -114,6 +116,7 @@ mod verif_search_p {
         match job.edit {
             1 => { if parent[1].is_some() { server.world_mut().entity_mut(ents[1]).remove::<ChildOf>(); parent[1] = None; } }
             2 => { server.world_mut().entity_mut(ents[1]).insert(ChildOf(ents[3])); parent[1] = Some(3); }
+            3 => { if parent[2].is_none() { server.world_mut().entity_mut(ents[2]).insert(ChildOf(ents[1])); parent[2] = Some(1); } }
             _ => {}
         }
         if job.edit != 0 { deliver_all(&mut server, &mut client); deliver_all(&mut server, &mut client); }
@@ -199,8 +202,30 @@ mod verif_search_p {
                     if header + total_body <= max_size && msgs.len() != 1 {
                         return at(format!("everything fits into one message (header {header} + {total_body} <= {max_size}) but {} messages were sent (sizes {:?})", msgs.len(), msgs.iter().map(|m| m.len()).collect::<Vec<_>>()));
                     }
-                    // deliver + acknowledge, so that the next round starts clean
-                    for (ch, m) in sent { client.world_mut().resource_mut::<RepliconClient>().insert_received(ch, m); }
+                    if msgs.len() >= 2 {
+                        // A: only the first message arrives and is acknowledged
+                        let first = msgs[0].clone();
+                        client.world_mut().resource_mut::<RepliconClient>().insert_received(mutations_channel, first);
+                        client.update();
+                        server.exchange_with_client(&mut client);
+                        server.update();
+                        let again: Vec<(usize, Vec<u8>)> = server.world_mut().resource_mut::<RepliconServer>().drain_sent()
+                            .filter(|(c, ..)| *c == ce).map(|(_, ch, m)| (ch, m.to_vec())).collect();
+                        let resent: Vec<(u8, u8, u16)> = again.iter().filter(|(ch, _)| *ch == mutations_channel).flat_map(|(_, m)| payloads_in(m)).collect();
+                        for p in &expected {
+                            let i = p.0 as usize;
+                            if home[i] == 0 && resent.contains(p) {
+                                return at(format!("entity {i} travelled in the first message, which was delivered and acknowledged, yet it is re-sent in the next tick"));
+                            }
+                            if home[i] != 0 && !resent.contains(p) {
+                                return at(format!("entity {i} travelled in message {} of {}, which was lost; only the first message was acknowledged, yet entity {i} is not re-sent in the next tick - an acknowledgement must cover the entities of its own message only", home[i], msgs.len()));
+                            }
+                        }
+                        for (ch, m) in again { client.world_mut().resource_mut::<RepliconClient>().insert_received(ch, m); }
+                    } else {
+                        // deliver + acknowledge, so that the next round starts clean
+                        for (ch, m) in sent { client.world_mut().resource_mut::<RepliconClient>().insert_received(ch, m); }
+                    }
                     client.update();
                     server.exchange_with_client(&mut client);
                     deliver_all(&mut server, &mut client);
@@ -243,7 +268,7 @@ mod verif_search_p {
         let pads: Vec<usize> = if depth >= 5 { std::vec![8, 30, 52, 75, 110] } else { std::vec![8, 40, 75] };
         let ms = max_sizes(depth);
         let mut jobs: Vec<Job> = Vec::new();
-        for shape in 0..SHAPES.len() { for edit in 0..3 {
+        for shape in 0..SHAPES.len() { for edit in 0..4 {
             let n = pads.len();
             for code in 0..n * n * n * n {
                 let sizes = [pads[code % n], pads[code / n % n], pads[code / n / n % n], pads[code / n / n / n % n]];
